@@ -401,7 +401,7 @@ def run(ctx):
     # ---- enumeration
     maxk = 6 if ctx.tier == "thorough" else 5
     sets = [S for k in range(0, maxk + 1) for S in itertools.combinations(NAMES, k)]
-    jobs = min(16, os.cpu_count() or 1)
+    jobs = min(int(os.environ.get("VERIF_JOBS", "16")), os.cpu_count() or 1)
     chunks = [(str(ctx.repo), sets[i::jobs * 4]) for i in range(jobs * 4)]
     total = 0
     findings = []
@@ -468,6 +468,19 @@ def run(ctx):
         if fn is None:
             raise AnalysisError(f"anchor awkward_constructors.{fname} missing")
         src = unparse(fn)
+        # a private module-level helper with a single return, called with plain names, is read with its parameters replaced by the arguments
+        for c_ in ast.walk(fn):
+            if isinstance(c_, ast.Call) and isinstance(c_.func, ast.Name) and c_.func.id in cf.functions and c_.func.id != fname and all(isinstance(a_, ast.Name) for a_ in c_.args) and not c_.keywords:
+                h_ = cf.functions[c_.func.id]
+                body_ = [st for st in h_.body if not (isinstance(st, ast.Expr) and isinstance(st.value, ast.Constant))]
+                if len(body_) == 1 and isinstance(body_[0], ast.Return) and body_[0].value is not None and len(h_.args.args) == len(c_.args):
+                    ren_ = {p_.arg: a_.id for p_, a_ in zip(h_.args.args, c_.args)}
+
+                    class _Ren(ast.NodeTransformer):
+                        def visit_Name(self, node):
+                            return ast.copy_location(ast.Name(id=ren_.get(node.id, node.id), ctx=node.ctx), node)
+                    import copy as _copy
+                    src += "\n" + unparse(_Ren().visit(_copy.deepcopy(body_[0].value)))
         unpack = [st for st in ast.walk(fn) if isinstance(st, ast.Assign) and isinstance(st.value, ast.Call) and unparse(st.value.func) == "_check_names"]
         ok = len(unpack) == 1 and isinstance(unpack[0].targets[0], ast.Tuple) and len(unpack[0].targets[0].elts) == 4
         if ok:
